@@ -213,6 +213,12 @@ def iterRangeShape(self, start, end, step=1, tick=True):
 
     for c in range(start, end, step):
         p = self.getPayload(c)
+
+        # Keep the current point up to date for the traces of the ranks
+        # below (iterRangeShapeRef does so through getPayloadRef)
+        if is_collecting and tick:
+            Metrics.addUse(rank, c, None, type_=None)
+
         yield CoordPayload(c, p)
 
         if is_collecting and tick:
